@@ -358,7 +358,7 @@ def _real_env():
             return gs.inputs["agent"]["world"].data.a[-1, 2:3].astype(jnp.float32)
 
         def get_output(self, gs, action):
-            return POut(a=jnp.stack([jnp.int32(nodes["agent"].nid), gs.seq["agent"].astype(jnp.int32), (action[0] * 1000).astype(jnp.int32)]))
+            return POut(a=jnp.stack([jnp.int32(nodes["agent"].nid), gs.seq["agent"].astype(jnp.int32), (action[0] * 1000).astype(jnp.int32), jnp.int32(0)]))
 
         def get_reward(self, gs, action):
             return action[0] + gs.seq["agent"].astype(jnp.float32)
